@@ -15,7 +15,7 @@ package packageonly
 //@ pure func methBad(pass *analysis.Pass, ann *annotations.PackageAnnotations, p string, t string, m string) bool = p != pass.Pkg.Path() && (exists x string :: poMethDeclared(pass, ann, p, t, m, x)) && !poMethDeclared(pass, ann, p, t, m, pass.Pkg.Path()) && !poMethDeclared(pass, ann, p, t, m, pass.Pkg.Name())
 
 //@ func findFunctionViolation
-//@   props C04 C17 C10
+//@   props C04 C17 C10 C12
 //@   ghostparam packageAnnotations *annotations.PackageAnnotations
 //@   requires poCtxOK(ctx, packageAnnotations)
 //@   fresh
@@ -24,7 +24,7 @@ package packageonly
 //@   assigns nothing
 
 //@ func findMethodViolation
-//@   props C04 C17 C10
+//@   props C04 C17 C10 C12
 //@   ghostparam packageAnnotations *annotations.PackageAnnotations
 //@   requires poCtxOK(ctx, packageAnnotations)
 //@   fresh
@@ -34,7 +34,7 @@ package packageonly
 
 // PKGO01 is reported once per file and type key: the first unsuppressed use marks the key
 //@ func findTypeViolation
-//@   props C04 C07 C17 C10
+//@   props C04 C07 C17 C10 C12
 //@   ghostparam packageAnnotations *annotations.PackageAnnotations
 //@   requires poCtxOK(ctx, packageAnnotations)
 //@   fresh
@@ -56,7 +56,7 @@ package packageonly
 //@ macro func refKey(pass *analysis.Pass, e *ast.SelectorExpr) string = selObj(pass, e).Pkg().Path() + "." + selObj(pass, e).Name()
 
 //@ func findSelectorExprViolation
-//@   props C04 C13 C10
+//@   props C04 C13 C10 C12
 //@   ghostparam packageAnnotations *annotations.PackageAnnotations
 //@   requires poCtxOK(ctx, packageAnnotations)
 //@   fresh
@@ -70,7 +70,7 @@ package packageonly
 
 // identifiers only ever denote objects of the using package itself, which are always allowed
 //@ func findIdentViolation
-//@   props C04 C10
+//@   props C04 C10 C12
 //@   ghostparam packageAnnotations *annotations.PackageAnnotations
 //@   requires poCtxOK(ctx, packageAnnotations)
 //@   fresh
@@ -127,7 +127,7 @@ package packageonly
 // ---- C17 / C08: every violation that the suppression set does not cover is emitted, at its position ----------------
 //@ pure func shown_packageonly(ign *util.IgnoreSet, vs []PackageOnlyViolation, m int) rec int = m <= 0 ? 0 : (shown_packageonly(ign, vs, m-1) + (supp(ign, vs[m-1].Code, vs[m-1].Pos) ? 0 : 1))
 //@ func ReportViolations
-//@   props C17 C08 C07 C10
+//@   props C17 C08 C07 C10 C04
 //@   requires true
 //@   assigns pass.$reports
 //@   ensures len(pass.$reports) == old(len(pass.$reports)) + shown_packageonly(nil, violations, len(violations))
